@@ -273,6 +273,20 @@ func (x *extractor) pos(p token.Pos) string {
 	return fmt.Sprintf("%s:%d", rel, ps.Line)
 }
 
+// posLess orders positions by (file name, line, column): token.Pos values
+// depend on the order in which the packages happened to be loaded.
+func (x *extractor) posLess(a, b token.Pos) bool {
+	pa, pb := x.fset.Position(a), x.fset.Position(b)
+	if pa.Filename != pb.Filename {
+		return pa.Filename < pb.Filename
+	}
+	if pa.Line != pb.Line {
+		return pa.Line < pb.Line
+	}
+
+	return pa.Column < pb.Column
+}
+
 func (x *extractor) fatal(p token.Pos, format string, args ...any) {
 	fmt.Fprintf(os.Stderr, "extract c17: %s: %s\n", x.pos(p), fmt.Sprintf(format, args...))
 	os.Exit(3)
@@ -1311,7 +1325,7 @@ func (x *extractor) collectURLWrites() {
 		os.Exit(3)
 	}
 	ws := append([]fieldWrite{}, x.fieldWrites[urlField]...)
-	sort.Slice(ws, func(i, j int) bool { return ws[i].val.Pos() < ws[j].val.Pos() })
+	sort.Slice(ws, func(i, j int) bool { return x.posLess(ws[i].val.Pos(), ws[j].val.Pos()) })
 	for _, w := range ws {
 		x.strict = inFiltering(w.pkg.PkgPath)
 		p := x.prov(w.pkg, w.fn, w.val, map[types.Object]bool{}, 0)
@@ -1444,7 +1458,7 @@ func (x *extractor) collectPatternWrites() {
 		os.Exit(3)
 	}
 	ws := append([]fieldWrite{}, x.fieldWrites[field]...)
-	sort.Slice(ws, func(i, j int) bool { return ws[i].val.Pos() < ws[j].val.Pos() })
+	sort.Slice(ws, func(i, j int) bool { return x.posLess(ws[i].val.Pos(), ws[j].val.Pos()) })
 	for _, w := range ws {
 		pw := &patWrite{ID: len(x.pats), Pos: x.pos(w.val.Pos()), Func: x.funcName(w.pkg, w.fn), Expr: x.exprText(w.val)}
 		if w.fn != nil && pw.Func == fltPkg+".New" && x.isConfiguredAppend(w.pkg, w.fn, w.val, field, cfgField) {
@@ -1643,7 +1657,7 @@ func (x *extractor) collectClientFacts() {
 		os.Exit(3)
 	}
 	ws := append([]fieldWrite{}, x.fieldWrites[field]...)
-	sort.Slice(ws, func(i, j int) bool { return ws[i].val.Pos() < ws[j].val.Pos() })
+	sort.Slice(ws, func(i, j int) bool { return x.posLess(ws[i].val.Pos(), ws[j].val.Pos()) })
 	for _, w := range ws {
 		cw := &clientWrite{ID: len(x.clients), Pos: x.pos(w.val.Pos()), Func: x.funcName(w.pkg, w.fn), Expr: x.exprText(w.val)}
 		if call, ok := ast.Unparen(w.val).(*ast.CallExpr); ok {
